@@ -1,14 +1,24 @@
+// probe (development aid of g6): g6probe fmt <file>  prints format.Source twice; g6probe expr <src>... parses expressions
 package main
 
 import (
 	"fmt"
 	"os"
 
+	"github.com/goplus/xgo/format"
 	"github.com/goplus/xgo/parser"
 )
 
 func main() {
-	for _, s := range os.Args[1:] {
+	if len(os.Args) > 2 && os.Args[1] == "fmt" {
+		src, _ := os.ReadFile(os.Args[2])
+		o1, err := format.Source(src, false, "x.xgo")
+		fmt.Printf("--- pass 1 (err=%v)\n%s", err, o1)
+		o2, err := format.Source(o1, false, "x.xgo")
+		fmt.Printf("--- pass 2 (err=%v)\n%s", err, o2)
+		return
+	}
+	for _, s := range os.Args[2:] {
 		e, err := parser.ParseExpr(s)
 		fmt.Printf("%q -> %T %v\n", s, e, err)
 	}
